@@ -8,7 +8,7 @@ ID = "C17"
 VARIANTS = ["asan"]
 TARGETS = ["ovni-static", "ovniemu"]
 LEVEL = "exploration"
-RULE = ("turn-based multi-thread libovni programs (1-4 threads of a process) through rtdrv: ovni_mark_type "
+RULE = ("turn-based multi-thread libovni programs (1-4 threads in one process, or split over two processes of one loom that run one after the other into the same trace directory) through rtdrv: ovni_mark_type "
         "(stack/single, titles), ovni_mark_label, then ovni_mark_set/push/pop interleaved with OHp/OHr, cool/warm "
         "and OAs; the types and labels are declared by different threads that agree, overlap, or (one case in "
         "three) carry exactly one conflict (title, channel type or label) or one misuse (pop mismatch, zero value, "
@@ -34,6 +34,10 @@ def programs(draw):
     nth = draw(st.integers(1, 4))
     ntypes = draw(st.integers(1, 3))
     tids = [200 + i * 3 for i in range(nth)]
+    # one process, or two processes of the same loom that run one after the other
+    split = draw(st.integers(1, nth - 1)) if (nth >= 2 and draw(st.booleans())) else nth
+    pids = [9 if t < split else 11 for t in range(nth)]
+    phases = [list(range(split))] + ([list(range(split, nth))] if split < nth else [])
     types = {}
     used = draw(st.lists(st.integers(0, 99), min_size=ntypes, max_size=ntypes, unique=True))
     for mt in used:
@@ -64,7 +68,7 @@ def programs(draw):
     streams = []
     ncpus = draw(st.integers(1, 3))
     for t in range(nth):
-        s = {"loom": "node.7", "pid": 9, "tid": tids[t], "app": 3, "require": {"ovni": "1.1.0"}, "events": []}
+        s = {"loom": "node.7", "pid": pids[t], "tid": tids[t], "app": 3 if pids[t] == 9 else 4, "require": {"ovni": "1.1.0"}, "events": []}
         if t == 0:
             s["cpus"] = [[i, i] for i in range(ncpus)]
         streams.append(s)
@@ -107,111 +111,137 @@ def programs(draw):
         ops.append((0, ["mlabel", free[0], 1, "lab"]))
     if bad == "label-value":
         ops.append((0, ["mlabel", used[0], draw(st.sampled_from([0, -1])), "lab"]))
-    for t in range(nth):
-        cpu = t if t < ncpus else -1
-        if w.legal(ths[t], "OHx", T.P("iiQ", cpu, -1, 0)):
-            ops.append((t, ["ev", "OHx", T.P("iiQ", cpu, -1, 0)]))
     n = draw(st.integers(3, 40))
     misuse_at = draw(st.integers(0, n - 1)) if bad in ("pop-mismatch", "zero", "undefined", "set-on-stack", "push-on-single", "pop-on-single") else -1
     hidden = False
-    for i in range(n):
-        t = draw(st.integers(0, nth - 1))
-        th = ths[t]
-        if th.state in (R.ST_DEAD, R.ST_UNKNOWN):
-            continue
-        if i == misuse_at:
-            mts = sorted(types)
-            singles = [m for m in mts if types[m]["kind"] == "single"]
-            stacks = [m for m in mts if types[m]["kind"] == "stack"]
-            op = None
-            if bad == "zero":
-                m = draw(st.sampled_from(mts))
-                op = ["mset" if types[m]["kind"] == "single" else "mpush", m, 0]
-            elif bad == "undefined":
-                free = [x for x in range(100) if x not in types]
-                op = [draw(st.sampled_from(["mset", "mpush"])), free[1], 3]
-            elif bad == "set-on-stack" and stacks:
-                op = ["mset", stacks[0], 2]
-            elif bad == "push-on-single" and singles:
-                op = ["mpush", singles[0], 2]
-            elif bad == "pop-on-single" and singles:
-                op = ["mpop", singles[0], 2]
-            elif bad == "pop-mismatch" and stacks:
-                m = stacks[0]
-                cur = th.q[("O", "mark%d" % m)]
-                op = ["mpop", m, (cur[-1] + 1) if cur else 5]
-            if op is not None:
-                ops.append((t, op))
-                conflict_done = True
-                break
-            continue
-        k = draw(st.integers(0, 9))
-        if k <= 5:
-            p = gen.prop_mark(draw, w, th)
-            if p and w.legal(th, *p):
-                v, mt = struct.unpack("<qi", bytes.fromhex(p[1]))
-                ops.append((t, [{"OM=": "mset", "OM[": "mpush", "OM]": "mpop"}[p[0]], mt, v]))
-                if th.state not in R.ACTIVE:
-                    hidden = True
-        elif k <= 7:
-            p = gen.prop_state(draw, w, th)
-            if p[0] != "OHe" and w.legal(th, *p):
-                ops.append((t, ["ev", p[0], ""]))
-        else:
-            idx = draw(st.integers(-1, ncpus - 1))
-            if w.legal(th, "OAs", T.P("i", idx)):
-                ops.append((t, ["ev", "OAs", T.P("i", idx)]))
+    stop = False
+
+    def close(members):
+        for _round in range(4):
+            for t in members:
+                th = ths[t]
+                if th.state == R.ST_UNKNOWN and w.legal(th, "OHx", T.P("iiQ", -1, -1, 0)):
+                    ops.append((t, ["ev", "OHx", T.P("iiQ", -1, -1, 0)]))
+                if th.state in (R.ST_PAUSED, R.ST_WARMING) and w.legal(th, "OHr"):
+                    ops.append((t, ["ev", "OHr", ""]))
+                if th.state in (R.ST_RUNNING, R.ST_COOLING) and w.legal(th, "OHe"):
+                    ops.append((t, ["ev", "OHe", ""]))
+
+    for pi, members in enumerate(phases):
+        if stop:
+            break
+        for t in members:
+            cpu = t if t < ncpus else -1
+            if w.legal(ths[t], "OHx", T.P("iiQ", cpu, -1, 0)):
+                ops.append((t, ["ev", "OHx", T.P("iiQ", cpu, -1, 0)]))
+        lo, hi = (0, n) if len(phases) == 1 else ((0, n // 2) if pi == 0 else (n // 2, n))
+        for i in range(lo, hi):
+            t = members[draw(st.integers(0, len(members) - 1))]
+            th = ths[t]
+            if th.state in (R.ST_DEAD, R.ST_UNKNOWN):
+                continue
+            if i == misuse_at:
+                mts = sorted(types)
+                singles = [m for m in mts if types[m]["kind"] == "single"]
+                stacks = [m for m in mts if types[m]["kind"] == "stack"]
+                op = None
+                if bad == "zero":
+                    m = draw(st.sampled_from(mts))
+                    op = ["mset" if types[m]["kind"] == "single" else "mpush", m, 0]
+                elif bad == "undefined":
+                    free = [x for x in range(100) if x not in types]
+                    op = [draw(st.sampled_from(["mset", "mpush"])), free[1], 3]
+                elif bad == "set-on-stack" and stacks:
+                    op = ["mset", stacks[0], 2]
+                elif bad == "push-on-single" and singles:
+                    op = ["mpush", singles[0], 2]
+                elif bad == "pop-on-single" and singles:
+                    op = ["mpop", singles[0], 2]
+                elif bad == "pop-mismatch" and stacks:
+                    m = stacks[0]
+                    cur = th.q[("O", "mark%d" % m)]
+                    op = ["mpop", m, (cur[-1] + 1) if cur else 5]
+                if op is not None:
+                    ops.append((t, op))
+                    conflict_done = True
+                    stop = True
+                    break
+                continue
+            k = draw(st.integers(0, 9))
+            if k <= 5:
+                p = gen.prop_mark(draw, w, th)
+                if p and w.legal(th, *p):
+                    v, mt = struct.unpack("<qi", bytes.fromhex(p[1]))
+                    ops.append((t, [{"OM=": "mset", "OM[": "mpush", "OM]": "mpop"}[p[0]], mt, v]))
+                    if th.state not in R.ACTIVE:
+                        hidden = True
+            elif k <= 7:
+                p = gen.prop_state(draw, w, th)
+                if p[0] != "OHe" and w.legal(th, *p):
+                    ops.append((t, ["ev", p[0], ""]))
+            else:
+                idx = draw(st.integers(-1, ncpus - 1))
+                if w.legal(th, "OAs", T.P("i", idx)):
+                    ops.append((t, ["ev", "OAs", T.P("i", idx)]))
+        close(members)
     if bad is not None and not conflict_done and bad not in ("range", "redefine", "label-undefined", "label-value"):
         bad = None
-    # close
-    for _round in range(4):
-        for t in range(nth):
-            th = ths[t]
-            if th.state == R.ST_UNKNOWN and w.legal(th, "OHx", T.P("iiQ", -1, -1, 0)):
-                ops.append((t, ["ev", "OHx", T.P("iiQ", -1, -1, 0)]))
-            if th.state in (R.ST_PAUSED, R.ST_WARMING) and w.legal(th, "OHr"):
-                ops.append((t, ["ev", "OHr", ""]))
-            if th.state in (R.ST_RUNNING, R.ST_COOLING) and w.legal(th, "OHe"):
-                ops.append((t, ["ev", "OHe", ""]))
+    close(list(range(nth)))
     shared = sum(1 for mt in types if sum(1 for d in decl if mt in d) >= 2)
-    return {"nth": nth, "tids": tids, "ncpus": ncpus, "types": {str(k): v for k, v in types.items()},
+    return {"nth": nth, "tids": tids, "pids": pids, "ncpus": ncpus, "types": {str(k): v for k, v in types.items()},
             "decl": [{str(k): v for k, v in d.items()} for d in decl], "ops": [[t] + o for t, o in ops],
             "bad": bad, "nt": bool(shared or hidden)}
 
 
-def to_script(case):
-    lines = ["MODE turn", "P init 3 %s 9" % rt.hx("node.7")]
-    for t in range(case["nth"]):
-        lines.append("T%d init %d" % (t, case["tids"][t]))
-    for i in range(case["ncpus"]):
-        lines.append("T0 cpu %d %d" % (i, i))
-    for o in case["ops"]:
-        t, op = o[0], o[1:]
-        if op[0] == "mtype":
-            lines.append("T%d mtype %d %d %s" % (t, op[1], op[2], rt.hx(op[3])))
-        elif op[0] == "mlabel":
-            lines.append("T%d mlabel %d %d %s" % (t, op[1], op[2], rt.hx(op[3])))
-        elif op[0] in ("mset", "mpush", "mpop"):
-            lines.append("T%d %s %d %d" % (t, op[0], op[1], op[2]))
-        else:
-            lines.append(("T%d ev %s now %s" % (t, rt.hx(op[1]), op[2])).rstrip())
-    for t in range(case["nth"]):
-        lines.append("T%d flush" % t)
-        lines.append("T%d free" % t)
-    lines.append("P fini")
-    return lines
+def to_scripts(case):
+    """One script per process (pid), in execution order."""
+    out = []
+    pids = case.get("pids") or [9] * case["nth"]
+    for pid in sorted(set(pids)):
+        members = [t for t in range(case["nth"]) if pids[t] == pid]
+        lines = ["MODE turn", "P init %d %s %d" % (3 if pid == 9 else 4, rt.hx("node.7"), pid)]
+        for t in members:
+            lines.append("T%d init %d" % (t, case["tids"][t]))
+        if 0 in members:
+            for i in range(case["ncpus"]):
+                lines.append("T0 cpu %d %d" % (i, i))
+        for o in case["ops"]:
+            t, op = o[0], o[1:]
+            if t not in members:
+                continue
+            if op[0] == "mtype":
+                lines.append("T%d mtype %d %d %s" % (t, op[1], op[2], rt.hx(op[3])))
+            elif op[0] == "mlabel":
+                lines.append("T%d mlabel %d %d %s" % (t, op[1], op[2], rt.hx(op[3])))
+            elif op[0] in ("mset", "mpush", "mpop"):
+                lines.append("T%d %s %d %d" % (t, op[0], op[1], op[2]))
+            else:
+                lines.append(("T%d ev %s now %s" % (t, rt.hx(op[1]), op[2])).rstrip())
+        for t in members:
+            lines.append("T%d flush" % t)
+            lines.append("T%d free" % t)
+        lines.append("P fini")
+        out.append((pid, members, lines))
+    return out
 
 
 def run(case, ctx):
-    lines = to_script(case)
+    scripts = to_scripts(case)
+    pids = case.get("pids") or [9] * case["nth"]
     d = ctx.newdir()
     try:
-        rr = rt.run_script(ctx.shared["rtdrv"], lines, d)
-        if rr.res.kind != "ok":
-            raise Violation("driver did not finish: %s" % rr.res.brief())
-        refused = [(who, ln) for who, lg in rr.logs.items() for ln, v in lg.items() if v[0] == "refused"]
-        os.makedirs(os.path.join(rr.tracedir, "cfg"), exist_ok=True)
-        er = tools.emu(ctx.b("asan"), rr.tracedir, ("-l",))
+        tracedir = os.path.join(d, "trace")
+        runs = {}
+        refused = []
+        for (pid, members, lines) in scripts:
+            rr = rt.run_script(ctx.shared["rtdrv"], lines, os.path.join(d, "p%d" % pid), tracedir=tracedir)
+            if rr.res.kind != "ok":
+                raise Violation("driver did not finish: %s" % rr.res.brief())
+            refused += [(pid, who, ln) for who, lg in rr.logs.items() for ln, v in lg.items() if v[0] == "refused"]
+            for t in members:
+                runs[t] = (lines, rr)
+        os.makedirs(os.path.join(tracedir, "cfg"), exist_ok=True)
+        er = tools.emu(ctx.b("asan"), tracedir, ("-l",))
         if er.kind not in ("ok", "rejected"):
             raise Violation("ovniemu crashed: %s" % er.brief())
         if case["bad"]:
@@ -219,11 +249,12 @@ def run(case, ctx):
                 raise Violation("misuse/conflict '%s' was refused neither by libovni nor by ovniemu" % case["bad"])
             return {"nt": case["nt"], "cls": ["bad:" + case["bad"], "refused-by:" + ("libovni" if refused else "ovniemu")]}
         if refused:
-            raise Violation("libovni refused a call of a correct program (script lines %s)" % refused[:3])
+            raise Violation("libovni refused a call of a correct program (pid, thread, script line: %s)" % refused[:3])
         # streams hold exactly what was emitted; metadata holds exactly what was declared
         streams = []
         for t in range(case["nth"]):
-            sd = os.path.join(rr.tracedir, "loom.node.7", "proc.9", "thread.%d" % case["tids"][t])
+            lines, rr = runs[t]
+            sd = os.path.join(tracedir, "loom.node.7", "proc.%d" % pids[t], "thread.%d" % case["tids"][t])
             data = open(os.path.join(sd, "stream.obs"), "rb").read()
             evs, probs = obs.validate_stream(data)
             if probs:
@@ -242,7 +273,7 @@ def run(case, ctx):
                 want[mt] = e
             if got != want:
                 raise Violation("thread %d metadata marks %s != declared %s" % (t, got, want))
-            streams.append({"loom": "node.7", "pid": 9, "tid": case["tids"][t], "raw_json": json.dumps(meta),
+            streams.append({"loom": "node.7", "pid": pids[t], "tid": case["tids"][t], "raw_json": json.dumps(meta),
                             "events": [[e.mcv, e.clock, e.payload.hex(), int(e.jumbo)] for e in evs]})
         if not er.ok:
             raise Violation("ovniemu -l rejects the trace of a correct mark program: %s" % er.brief())
@@ -251,11 +282,11 @@ def run(case, ctx):
         if v != "accept":
             raise Violation("harness: reference model does not accept the recorded trace: %s" % (info,))
         mtypes = {100 + int(mt) for mt in case["types"]}
-        probs = compare.compare(model, rr.tracedir, only_types=mtypes | {4, 6})
+        probs = compare.compare(model, tracedir, only_types=mtypes | {4, 6})
         if probs:
             raise Violation("mark timelines differ: " + "; ".join(probs[:3]))
         for name in ("thread", "cpu"):
-            pcf = pv.Pcf(os.path.join(rr.tracedir, name + ".pcf"))
+            pcf = pv.Pcf(os.path.join(tracedir, name + ".pcf"))
             for mt, ty in case["types"].items():
                 typ = 100 + int(mt)
                 if pcf.type_label(typ) != ty["title"]:
@@ -263,8 +294,8 @@ def run(case, ctx):
                 want = {int(v): l for v, l in ty["labels"].items()}
                 if pcf.types[typ][1] != want:
                     raise Violation("%s.pcf type %d labels %s != union of declared labels %s" % (name, typ, pcf.types[typ][1], want))
-        return {"nt": case["nt"], "cls": ["ok-program", "threads:%d" % case["nth"]],
-                "sample": {"script": lines[:30], "nlines": len(lines)}}
+        return {"nt": case["nt"], "cls": ["ok-program", "threads:%d" % case["nth"], "processes:%d" % len(scripts)],
+                "sample": {"script": scripts[0][2][:30], "processes": len(scripts)}}
     finally:
         ctx.rmdir(d)
 
